@@ -98,6 +98,7 @@ def relabellings(ci):
         'large': ci + 10 ** 6,
         'float': ci.astype(float),
         'negative': ci - k - 2,
+        'float_close': 1.0 + ci * 1e-9,      # distinct labels closer than common tolerances
     }
     if k <= 3:
         for p in itertools.permutations(range(1, k + 1)):
